@@ -1,12 +1,184 @@
-//! C02 — stub (not built yet).
+//! C02 — accepted IVP steps are locally accurate to the requested tolerance.
+//! Every consecutive pair of points of every path is compared with a harness-side reference flow
+//! of the same ODE restarted at the previous yielded point.
+
+use crate::gen::ivp::*;
+use crate::ivpdrv::*;
+use crate::json::J;
+use crate::refmodel::schemes::*;
 use crate::report::*;
+use crate::rng::{CaseHash, Rng};
+
+const EPS: f64 = f64::EPSILON;
+
+/// K_s: local error <= K_s tol h (RK, Adams) or K_s tol (BDF). Frozen values and the reasons are in
+/// DESIGN.md §4 C02 (observed maxima are written to the evidence on every run).
+pub fn k_const(s: Solver) -> f64 {
+    match s {
+        // observed maxima over 90 000 solves (thorough, seed 1) in the comment
+        Solver::RK45 => 8.0,    // 0.94
+        Solver::RK23 => 2.0,    // 0.052 (the propagated third-order value is far more accurate than its second-order estimate)
+        Solver::Adams3 => 8.0,  // 0.48
+        Solver::BDF2 => 4.0,    // 0.17
+        Solver::Adams5 => 60.0, // 6.8 (RK4 start-up / final steps are not error controlled)
+        Solver::BDF6 => 150.0,  // 6.9 (14.9 in the design prototype)
+        Solver::Euler => f64::NAN,
+    }
+}
 
 pub fn meta() -> CheckMeta {
-    CheckMeta { id: "C02", level: "exploration", rule: "stub".into(), assumptions: vec![], exhaustive: false, stuck_is_violation: false }
+    CheckMeta {
+        id: "C02",
+        level: "exploration",
+        rule: "cases: 6 adaptive solvers x G-ivp problems (dim 1-4, general/linear/autonomous/relaxing) x tol 1e-10..1e-3 with L*dt_max placed as the property prescribes (x factor in [0.5,1]); every accepted step is judged against a Richardson-extrapolated RK4 reference flow restarted at the previous point (steps whose reference cannot certify 1e-13 are inconclusive). A solve is non-trivial when it is estimator-limited (median step < 0.9 dt_max, or for the Runge-Kutta solvers a rejected trial step was observed through the call count) and contains start-up/regular/final steps as available; distinct = hash of (solver, problem, configuration)".into(),
+        assumptions: vec![
+            "reference flow: classical RK4 with m and 2m sub-steps, Richardson extrapolated, m doubled until |y_2m - y_m|/15 <= 1e-15 (1+|y|)".into(),
+            "bound K_s tol h + 64 eps (1+|y|) for RK/Adams, K_s tol + floor for BDF; K = 8 (RK45, Adams3), 2 (RK23), 4 (BDF2), 60 (Adams5), 150 (BDF6)".into(),
+            "a solve ending in an Err item is C05's statement; its yielded steps are still judged".into(),
+        ],
+        exhaustive: false,
+        stuck_is_violation: false,
+    }
 }
-pub fn stages(_ctx: &Ctx) -> Vec<Stage> {
-    vec![]
+
+fn run_case(rep: &mut Report, solver: Solver, prob: &IvpProblem, cfg: &Cfg, mode: DimMode) {
+    let sname = solver.name();
+    let opts = Opts { budget: 4_000_000, max_items: 3_000, mode, ..Default::default() };
+    let out = solve_real(solver, cfg, &prob.y0, prob, &opts);
+    rep.eval();
+    rep.count(&format!("{}/solves", sname), 1);
+    let case = || J::obj().set("solver", sname).set("mode", format!("{:?}", mode)).set("cfg", cfg.to_json()).set("problem", prob.to_json());
+    if let Some((m, l)) = &out.panic {
+        rep.violation(&format!("{}/panic", sname), case(), format!("solver panicked: '{}' at {}", m, l));
+        return;
+    }
+    if out.build_err.is_some() {
+        rep.violation(&format!("{}/valid-config-rejected", sname), case(), format!("{:?}", out.build_err));
+        return;
+    }
+    if out.n_err() > 0 || out.budget_hit {
+        rep.inconclusive("err-or-budget(C05)");
+        rep.count(&format!("{}/err_solves", sname), 1);
+    }
+    let mut pts: Vec<(f64, Vec<f64>)> = vec![(cfg.t0, prob.y0.clone())];
+    pts.extend(out.ok_points());
+    let k = k_const(solver);
+    let mut hs = vec![];
+    let mut worst = 0.0f64;
+    for i in 1..pts.len() {
+        let (tp, yp) = (&pts[i - 1].0, &pts[i - 1].1);
+        let (t, y) = (&pts[i].0, &pts[i].1);
+        let h = *t - *tp;
+        if !(h > 0.0) || y.len() != yp.len() || !y.iter().all(|v| v.is_finite()) {
+            rep.inconclusive("malformed-path(C01)");
+            return;
+        }
+        hs.push(h);
+        let (yr, e) = flow(prob, prob.lip, *tp, yp, h);
+        if !(e <= 1e-13 * (1.0 + norm2(&yr))) {
+            rep.inconclusive("reference-flow-not-certified");
+            continue;
+        }
+        let floor = 64.0 * EPS * (1.0 + norm2(y));
+        let le = (dist2(y, &yr) - floor).max(0.0);
+        let unit = if solver.is_bdf() { cfg.tol } else { cfg.tol * h };
+        let ratio = le / unit;
+        worst = worst.max(ratio);
+        rep.count(&format!("{}/steps_judged", sname), 1);
+        if !(ratio <= k) {
+            rep.violation(
+                &format!("{}/local-error", sname),
+                case(),
+                format!(
+                    "step {} from t={:.9e} with h={:.4e}: distance to the exact flow {:e} = {:.2} x tol{} (bound {}), tol={:e}",
+                    i,
+                    tp,
+                    h,
+                    le,
+                    ratio,
+                    if solver.is_bdf() { "" } else { " x h" },
+                    k,
+                    cfg.tol
+                ),
+            );
+            return;
+        }
+    }
+    rep.max(&format!("{}/local_error_over_unit", sname), worst);
+    rep.max(&format!("{}/local_error_over_bound", sname), worst / k);
+    // non-trivial rule
+    if hs.len() >= 3 && out.clean() {
+        let mut sorted = hs.clone();
+        sorted.sort_by(|a, b| a.partial_cmp(b).unwrap());
+        let median = sorted[sorted.len() / 2];
+        // RK solvers: a rejected trial step (seen through the call count) also shows the estimator at work
+        let rejected = solver.is_rk() && out.calls / solver.stages() > hs.len() as u64;
+        if rejected {
+            rep.count(&format!("{}/solves_with_rejected_trials", sname), 1);
+        }
+        let est_limited = median < 0.9 * cfg.dt_max || rejected;
+        if est_limited {
+            rep.count(&format!("{}/estimator_limited_solves", sname), 1);
+            let h = CaseHash::new("c02").u(solver.idx() as u64).fs(&prob.a).fs(&prob.y0).f(cfg.t0).f(cfg.t1).f(cfg.dt_max).f(cfg.tol);
+            rep.nontrivial(h.0);
+            if rep.wants_sample() {
+                rep.sample(case().set("steps", hs.len()).set("median_step_over_dtmax", median / cfg.dt_max).set("worst_local_error_over_unit", worst));
+            }
+        }
+    }
 }
-pub fn thresholds(_ctx: &Ctx, _rep: &Report) -> Vec<Threshold> {
-    vec![Threshold { what: "check not built".into(), required: 1.0, observed: 0.0 }]
+
+fn flavour_for(rng: &mut Rng) -> usize {
+    // C02 is about smooth non-stiff problems: general, linear, autonomous, linear-autonomous, relaxing
+    *rng.pick(&[0usize, 0, 1, 2, 3, 5])
+}
+
+pub fn stages(ctx: &Ctx) -> Vec<Stage> {
+    let seed = ctx.seed;
+    let mut st = vec![];
+    st.push(Stage::new("anchors", 6 * 8, move |i, rep| {
+        let solver = Solver::ADAPTIVE[(i % 6) as usize];
+        let k = i / 6;
+        let mut rng = Rng::for_case(4242, "c02-anchor", k);
+        let prob = IvpProblem::gen(&mut rng, 1 + (k as usize) % 4, [0, 1, 2, 5][(k % 4) as usize]);
+        let tol = [1e-4, 1e-6, 1e-8, 1e-10, 1e-3, 1e-5, 1e-7, 1e-9][k as usize];
+        let dt_max = dtmax_for(solver, prob.lip, tol, 0.9);
+        let cfg = Cfg { t0: 0.5, t1: 0.5 + dt_max * 45.0, dt_min: dt_max * 1e-7, dt_max, tol };
+        run_case(rep, solver, &prob, &cfg, if k % 2 == 0 { DimMode::Dynamic } else { DimMode::Static });
+    }));
+    let n = ctx.tier.pick(1_800, 90_000);
+    st.push(Stage::new("random", n, move |i, rep| {
+        let mut rng = Rng::for_case(seed, "c02-random", i);
+        let solver = Solver::ADAPTIVE[(i % 6) as usize];
+        let n = 1 + rng.below(4);
+        let fl = flavour_for(&mut rng);
+        // (forcing amplitudes stay O(1): with amplitudes 3-20 the terms the estimator cannot see
+        // grow with the amplitude and cap-limited steps reach 6-16 x tol h on correct code — that
+        // is outside the class the property quantifies over, see DESIGN.md C02)
+        let prob = IvpProblem::gen(&mut rng, n, fl);
+        let cfg = gen_cfg(&mut rng, solver, prob.lip, (-10.0, -3.0), (0.5, 2.3));
+        let mode = if rng.bool() { DimMode::Static } else { DimMode::Dynamic };
+        run_case(rep, solver, &prob, &cfg, mode);
+    }));
+    st
+}
+
+pub fn thresholds(ctx: &Ctx, rep: &Report) -> Vec<Threshold> {
+    let mut t = vec![];
+    for s in Solver::ADAPTIVE {
+        t.push(Threshold { what: format!("{}: accepted steps judged against the reference flow", s.name()), required: ctx.tier.pick(3_000.0, 150_000.0), observed: rep.counter(&format!("{}/steps_judged", s.name())) as f64 });
+        // RK45 runs at the step cap on this family when dt_max obeys the property's rule (its
+        // estimator is fourth order and the cap is tol^(1/5)): no minimum is demanded for it here;
+        // its acceptance decisions are exercised by C03's enlarged-cap stratum instead
+        if s != Solver::RK45 {
+            t.push(Threshold { what: format!("{}: estimator-limited solves", s.name()), required: ctx.tier.pick(10.0, 500.0), observed: rep.counter(&format!("{}/estimator_limited_solves", s.name())) as f64 });
+        }
+    }
+    let solves: i64 = Solver::ADAPTIVE.iter().map(|s| rep.counter(&format!("{}/solves", s.name()))).sum();
+    let errs: i64 = Solver::ADAPTIVE.iter().map(|s| rep.counter(&format!("{}/err_solves", s.name()))).sum();
+    t.push(Threshold { what: "fraction of solves without Err item".into(), required: 0.9, observed: 1.0 - errs as f64 / solves.max(1) as f64 });
+    let incon = *rep.inconclusive.get("reference-flow-not-certified").unwrap_or(&0) as f64;
+    let judged: i64 = Solver::ADAPTIVE.iter().map(|s| rep.counter(&format!("{}/steps_judged", s.name()))).sum();
+    t.push(Threshold { what: "fraction of steps whose reference flow was certified".into(), required: 0.99, observed: judged as f64 / (judged as f64 + incon).max(1.0) });
+    t
 }
